@@ -59,6 +59,7 @@ func c04(e *Env) {
 		Kinds:       []int{40, 10, 25, 12, 0, 0, 0, 0, 0, 2, 5, 6},
 		Compression: []string{"", "", "lz4", "snappy"},
 		Versions:    []primitive.ProtocolVersion{primitive.ProtocolVersion4, primitive.ProtocolVersion4, primitive.ProtocolVersion3},
+		RichCQL:     true,
 	}
 	f := newFwd(e, p, cfg)
 	if !f.bootOK() || !f.connectClients() {
